@@ -893,11 +893,14 @@ package engine
 
 //@ func (Matches).Json [C17]
 //@   nopanic
+// the list itself is encoded by encoding/json's rule for slices (A-JSON), not by a method of its own
+//@   atcall Marshal standard: !hasmethod(Matches, MarshalJSON) && !hasmethod(Matches, MarshalText)
 //@   atcall Marshal whole: arg0 == box(Matches, m)
 //@   atcall Marshal custom: hasmethod(Match, MarshalJSON)
 //@   ensures result == jsonOf(box(Matches, m))
 //@ func (Matches).FormattedJson [C17]
 //@   nopanic
+//@   atcall MarshalIndent standard: !hasmethod(Matches, MarshalJSON) && !hasmethod(Matches, MarshalText)
 //@   atcall MarshalIndent whole: arg0 == box(Matches, m) && arg1 == "" && arg2 == "\t"
 //@   atcall MarshalIndent custom: hasmethod(Match, MarshalJSON)
 //@   ensures result == jsonIndentOf(box(Matches, m), "", "\t")
